@@ -73,8 +73,17 @@ Proof.
   - unfold thread_local_arg_scope_enter in E. apply some_pair_inj in E. destruct E as [<- _]. apply wt_push; auto. discriminate.
   - unfold view_options_enter in E. apply some_pair_inj in E. destruct E as [<- _]. apply wt_push; auto. discriminate.
   - unfold context_enter in E. apply some_pair_inj in E. destruct E as [<- _]. apply wt_push; auto. discriminate.
-  - unfold contextual_enter in E. destruct (tl_get k_contextual v_empty_dict l) as [x|p|x]; try discriminate.
-    destruct a as [x|vs|x]; try discriminate. apply some_pair_inj in E. destruct E as [<- _]. apply wt_set; auto.
+  - (* contextual: the slot holds a dict (or nothing), so does what the generated loop writes *)
+    assert (P : exists p, tl_get k_contextual v_empty_dict l = VD p).
+    { destruct Wl as [_ W]. specialize (W k_contextual). replace (lclass k_contextual) with KDict in W by reflexivity.
+      unfold tl_get, v_empty_dict. destruct (st_get k_contextual l) as [[x|p|x]|]; try discriminate W; eauto. }
+    destruct P as [p P].
+    destruct a as [x|vs|x].
+    + rewrite contextual_scope_enter_other in E by discriminate. apply some_pair_inj in E. destruct E as [<- _].
+      rewrite P. apply wt_set; auto.
+    + rewrite (contextual_scope_enter_dict vs l p P) in E. apply some_pair_inj in E. destruct E as [<- _]. apply wt_set; auto.
+    + rewrite contextual_scope_enter_other in E by discriminate. apply some_pair_inj in E. destruct E as [<- _].
+      rewrite P. apply wt_set; auto.
   - unfold detour_enter in E. destruct (tl_peek k_detour v_empty_dict l) as [x|p|x]; try discriminate.
     destruct a as [x|vs|x]; try discriminate. apply some_pair_inj in E. destruct E as [<- _]. apply wt_push; auto. discriminate.
   - unfold detour_enter in E. destruct (tl_peek k_detour v_empty_dict l) as [x|p|x]; try discriminate.
@@ -141,7 +150,7 @@ Definition rule (c : cm) (a : val) (s : state) : val :=
   | CStrFmt | CReprFmt | CCtx | CLoadTypes => py_update (observe (getter_of c) s) a   (* merged keyword arguments *)
   | CViewOpts => py_merge2 (observe GViewOpts s) a
   | CContextual =>                                                             (* cascade *)
-      match observe GContextual s, a with VD p, VD vs => VD (contextual_merge p vs) | _, _ => v_none end
+      match observe GContextual s, a with VD p, VD vs => VD (contextual_merge p vs) | o, _ => o end
   | CDetour | CApplyWrappers =>                                                (* outer mappings win, transitively *)
       match observe GDetour s, a with
       | VD cur, VD ms => VD (dict_update cur (filter_map (detour_resolve cur) ms))
@@ -199,10 +208,19 @@ Proof.
       exfalso. unfold get_context, tl_get, py_copy, py_last in Hn. destruct Wl as [_ W]. specialize (W k_context).
       unfold k_context in *. change (lclass k___code_run_context__) with KStack in W.
       destruct (st_get k___code_run_context__ l) as [[x|x|[|x r]]|]; simpl in W, Hn; try discriminate.
-  - unfold observe. cbn [fst]. unfold contextual_enter in E.
-    destruct (tl_get k_contextual v_empty_dict l) as [x|p|x]; try discriminate.
-    destruct a as [x|vs|x]; try discriminate. apply some_pair_inj in E. destruct E as [<- _].
-    apply tl_get_set_same. rewrite Ll. apply Nat.ltb_lt; vm_compute; reflexivity.
+  - unfold observe. cbn [fst].
+    assert (P : exists p, tl_get k_contextual v_empty_dict l = VD p).
+    { destruct Wl as [_ W]. specialize (W k_contextual). replace (lclass k_contextual) with KDict in W by reflexivity.
+      unfold tl_get, v_empty_dict. destruct (st_get k_contextual l) as [[x|p|x]|]; try discriminate W; eauto. }
+    destruct P as [p P]. rewrite P.
+    destruct a as [x|vs|x].
+    + (* the argument is always a dict of overrides; with anything else the loop does nothing *)
+      rewrite contextual_scope_enter_other in E by discriminate. apply some_pair_inj in E. destruct E as [<- _].
+      rewrite P. apply tl_get_set_same. rewrite Ll. apply Nat.ltb_lt; vm_compute; reflexivity.
+    + rewrite (contextual_scope_enter_dict vs l p P) in E. apply some_pair_inj in E. destruct E as [<- _].
+      apply tl_get_set_same. rewrite Ll. apply Nat.ltb_lt; vm_compute; reflexivity.
+    + rewrite contextual_scope_enter_other in E by discriminate. apply some_pair_inj in E. destruct E as [<- _].
+      rewrite P. apply tl_get_set_same. rewrite Ll. apply Nat.ltb_lt; vm_compute; reflexivity.
   - unfold observe. cbn [fst]. unfold detour_enter in E.
     destruct (tl_peek k_detour v_empty_dict l) as [x|p|x]; try discriminate.
     destruct a as [x|vs|x]; try discriminate. apply some_pair_inj in E. destruct E as [<- _].
